@@ -131,6 +131,14 @@ def make_fields(rng, nrows, ncols, noise):
     else:
         kinds = [rng.choice(['const', 'linear', 'linear', 'bilinear', 'biquadratic', 'biquadratic']) for _ in range(4)]
         fs = [poly_field(rng, nrows, ncols, k) for k in kinds]
+        # grids that taper to "no correction": exact zeros in one field, or in all four
+        zr = rng.random()
+        zero = (None, lambda r, c: 0.0)
+        if zr < 0.10:
+            kinds, fs = ['zero'] * 4, [zero] * 4
+        elif zr < 0.22:
+            k0 = rng.randrange(4)
+            kinds[k0], fs[k0] = 'zero', zero
     nodes = [tuple(f(r, c) for _, f in fs) for r in range(nrows) for c in range(ncols)]
     for nd in nodes:
         for v in nd:
